@@ -97,6 +97,35 @@ fn exp_items(e: &mut Buf, seq: &[u8], open: u8, close: u8, alt: bool) {
     e.push(close);
 }
 
+/// `buf` is the plain (non-alternate) debug_list rendering of exactly the multiset `items` (pairs rendered as `(k, v)`,
+/// single items as `k`), in ANY order: the property fixes which entries are listed, not their order.
+fn same_list_any_order(buf: &Buf, pairs: bool, ks: &[u8], vs: &[u8]) {
+    let n = ks.len();
+    let w = if pairs { 8 } else { 3 }; // "(k, v), " / "k, "
+    let want_len = if n == 0 { 2 } else { 2 + n * w - 2 };
+    vf::check(!buf.overflow && buf.n == want_len, 1901);
+    vf::check(buf.b[0] == b'[' && (buf.n == 0 || buf.b[(buf.n - 1) % BUF] == b']'), 1902);
+    let (qk, qv) = (vf::any_u8(), vf::any_u8());
+    let (mut in_buf, mut in_items) = (0usize, 0usize);
+    let mut i = 0;
+    while i < n {
+        let o = 1 + i * w;
+        if o + w <= BUF + 2 {
+            if pairs {
+                vf::check(buf.b[o % BUF] == b'(' && buf.b[(o + 2) % BUF] == b',' && buf.b[(o + 3) % BUF] == b' ' && buf.b[(o + 5) % BUF] == b')', 1902);
+                if buf.b[(o + 1) % BUF] == qk && buf.b[(o + 4) % BUF] == qv { in_buf += 1; }
+                if i + 1 < n { vf::check(buf.b[(o + 6) % BUF] == b',' && buf.b[(o + 7) % BUF] == b' ', 1902); }
+            } else {
+                if buf.b[o % BUF] == qk { in_buf += 1; }
+                if i + 1 < n { vf::check(buf.b[(o + 1) % BUF] == b',' && buf.b[(o + 2) % BUF] == b' ', 1902); }
+            }
+        }
+        if ks[i] == qk && (!pairs || vs[i] == qv) { in_items += 1; }
+        i += 1;
+    }
+    vf::check(in_buf == in_items, 1902); // for every (k, v): as many times in the text as still to be yielded
+}
+
 /// Map: `{}` Display, `{:?}`, `{:#?}`
 pub fn c19_map<const N: usize, const W: u8>() {
     let (m, n) = any_d_map::<N>();
@@ -143,36 +172,42 @@ pub fn c19_set<const N: usize, const W: u8>() {
     vf::check(s.len() == n, 1904);
 }
 
-/// Debug of the map iterators after a symbolic consumption prefix: exactly the not-yet-yielded entries
+/// Debug of the map iterators after a symbolic consumption prefix: exactly the not-yet-yielded entries.
+/// The iterator is formatted after `j` steps and then consumed to the end: what it goes on to yield is what the
+/// text must list (as a multiset -- neither the yield order nor the listing order is fixed by the property).
 pub fn c19_map_iters<const N: usize, const W: u8>() {
     let (mut m, n) = any_d_map::<N>();
     let j = vf::any_usize();
     vf::assume(j <= n);
-    let which = W;
-    let (mut buf, mut exp) = (Buf::new(), Buf::new());
-    // the remaining sequence, observed with a plain iterator advanced by the same prefix
-    let mut rest = [(0u8, 0u8); N];
-    let mut rn = 0;
-    macro_rules! remaining_front { () => {{ let mut it = m.iter(); let mut i = 0; while i < N { if i < j { let _ = it.next(); } i += 1; } for (k, v) in it { if rn < N { rest[rn] = (k.dbg(), v.dbg()); } rn += 1; } }}; }
-    macro_rules! remaining_back { () => {{ let mut i = 0; for (k, v) in m.iter() { if i < n - j && rn < N { rest[rn] = (k.dbg(), v.dbg()); rn += 1; } i += 1; } }}; }
-    macro_rules! adv { ($it:expr) => {{ let mut it = $it; let mut i = 0; while i < N { if i < j { let _ = it.next(); } i += 1; } it }}; }
-    let keys_only = |r: &[(u8, u8)], e: &mut Buf| { let mut t = [0u8; N]; let mut i = 0; while i < r.len() { t[i] = r[i].0; i += 1; } exp_items(e, &t[..r.len()], b'[', b']', false) };
-    let vals_only = |r: &[(u8, u8)], e: &mut Buf| { let mut t = [0u8; N]; let mut i = 0; while i < r.len() { t[i] = r[i].1; i += 1; } exp_items(e, &t[..r.len()], b'[', b']', false) };
-    let ok = match which {
-        0 => { vf::reach(1); remaining_front!(); let it = adv!(m.iter()); let r = write!(buf, "{:?}", it); exp_pairs(&mut exp, &rest[..rn], b'[', b']', false, true); r }
-        1 => { vf::reach(1); remaining_front!(); let it = adv!(m.keys()); let r = write!(buf, "{:?}", it); keys_only(&rest[..rn], &mut exp); r }
-        2 => { vf::reach(1); remaining_front!(); let it = adv!(m.values()); let r = write!(buf, "{:?}", it); vals_only(&rest[..rn], &mut exp); r }
-        3 => { vf::reach(1); remaining_front!(); let it = adv!(m.iter_mut()); let r = write!(buf, "{:?}", it); exp_pairs(&mut exp, &rest[..rn], b'[', b']', false, true); r }
-        4 => { vf::reach(1); remaining_front!(); let it = adv!(m.values_mut()); let r = write!(buf, "{:?}", it); vals_only(&rest[..rn], &mut exp); r }
-        5 => { vf::reach(1); remaining_front!(); let it = adv!(m.drain()); let r = write!(buf, "{:?}", it); exp_pairs(&mut exp, &rest[..rn], b'[', b']', false, true); r }
-        // the owning iterators yield from the back: the not-yet-yielded entries are the first n-j in slot order
-        6 => { vf::reach(1); remaining_back!(); let it = adv!(m.into_iter()); let r = write!(buf, "{:?}", it); exp_pairs(&mut exp, &rest[..rn], b'[', b']', false, true); r }
-        7 => { vf::reach(1); remaining_back!(); let it = adv!(m.into_keys()); let r = write!(buf, "{:?}", it); keys_only(&rest[..rn], &mut exp); r }
-        _ => { vf::reach(1); remaining_back!(); let it = adv!(m.into_values()); let r = write!(buf, "{:?}", it); vals_only(&rest[..rn], &mut exp); r }
+    let mut buf = Buf::new();
+    let (mut rk, mut rv) = ([0u8; N], [0u8; N]);
+    let mut rn = 0usize;
+    macro_rules! go {
+        ($mk:expr, $k:expr, $v:expr) => {{
+            let mut it = $mk;
+            let mut i = 0;
+            while i < N { if i < j { let _ = it.next(); } i += 1; }
+            let r = write!(buf, "{:?}", it);
+            for x in it { if rn < N { rk[rn] = $k(&x); rv[rn] = $v(&x); } rn += 1; }
+            r
+        }};
+    }
+    let (ok, pairs) = match W {
+        0 => (go!(m.iter(), |x: &(&D, &D)| x.0.dbg(), |x: &(&D, &D)| x.1.dbg()), true),
+        1 => (go!(m.keys(), |x: &&D| x.dbg(), |_x: &&D| 0), false),
+        2 => (go!(m.values(), |x: &&D| x.dbg(), |_x: &&D| 0), false),
+        3 => (go!(m.iter_mut(), |x: &(&D, &mut D)| x.0.dbg(), |x: &(&D, &mut D)| x.1.dbg()), true),
+        4 => (go!(m.values_mut(), |x: &&mut D| x.dbg(), |_x: &&mut D| 0), false),
+        5 => (go!(m.drain(), |x: &(D, D)| x.0.dbg(), |x: &(D, D)| x.1.dbg()), true),
+        6 => (go!(m.into_iter(), |x: &(D, D)| x.0.dbg(), |x: &(D, D)| x.1.dbg()), true),
+        7 => (go!(m.into_keys(), |x: &D| x.dbg(), |_x: &D| 0), false),
+        _ => (go!(m.into_values(), |x: &D| x.dbg(), |_x: &D| 0), false),
     };
+    vf::reach(1);
     vf::check(ok.is_ok(), 1903);
     vf::check(rn == n - j, 1901);
-    same(&buf, &exp);
+    let rn = if rn < N { rn } else { N };
+    same_list_any_order(&buf, pairs, &rk[..rn], &rv[..rn]);
 }
 
 /// Debug of the lazy set-algebra iterators after a consumption prefix
@@ -198,8 +233,9 @@ pub fn c19_set_iters<const N: usize, const M: usize, const W: u8>() {
         _ => { vf::reach(1); go!(a.symmetric_difference(&b)) }
     };
     vf::check(ok.is_ok(), 1903);
-    exp_items(&mut exp, &rest[..rn], b'[', b']', false);
-    same(&buf, &exp);
+    let _ = &mut exp;
+    let rn = if rn < 8 { rn } else { 8 };
+    same_list_any_order(&buf, false, &rest[..rn], &rest[..rn]);
 }
 
 /// C06: formatting with width / fill / alignment / precision / sign flags into the fixed sink makes no allocator
